@@ -368,7 +368,44 @@ func C05(tier string) int {
 			}
 		})
 	}
-	enumStrings(c05Alphabet, maxLen, func(s []byte) { addOK(append([]byte(nil), s...), 0, maxParts) })
+	_ = addOK
+	// the big family (every short message x every division x modes x segmentations) is generated on the fly, one
+	// message per work item: materialised it would be tens of millions of case records
+	var okMsgs [][]byte
+	enumStrings(c05Alphabet, maxLen, func(s []byte) { okMsgs = append(okMsgs, append([]byte(nil), s...)) })
+	judge := func(c C05Case, sample bool) {
+		f := evalC05(c)
+		nontrivial := c.State != "ok" || bytes.ContainsAny(c.Msg, "\r\n.\x00\xff") || len(c.Msg) > lim
+		run.Eval(nontrivial)
+		if f != nil {
+			c.Show = fmt.Sprintf("%q", c.Msg)
+			run.Violate("c05", c, f, func() *h.Finding { return evalC05(c) })
+			run.Outcome("finding:" + f.Sig)
+		} else {
+			run.Outcome("ok:" + c.State)
+		}
+		if sample {
+			run.Sample("case", 8, map[string]interface{}{"mode": c.Mode, "state": c.State, "msg": fmt.Sprintf("%q", c.Msg), "chunks": c.Chunks, "seg": c.Seg})
+		}
+	}
+	h.ParallelFor(len(okMsgs), func(i int) {
+		if run.Expired() {
+			return
+		}
+		msg := okMsgs[i]
+		n := 0
+		compositions(len(msg), maxParts, func(ch []int) {
+			if run.Expired() {
+				return
+			}
+			for _, mode := range modes {
+				for _, seg := range segsAll {
+					n++
+					judge(C05Case{Mode: mode, State: "ok", Msg: msg, Chunks: append([]int(nil), ch...), Seg: seg}, i%1999 == 7 && n == 5)
+				}
+			}
+		})
+	})
 	for _, f := range fixed {
 		// fixed payloads: chunkings into <=2 chunks at every position
 		for _, mode := range modes {
@@ -414,20 +451,7 @@ func C05(tier string) int {
 		if run.Expired() {
 			return
 		}
-		c := cases[i]
-		f := evalC05(c)
-		nontrivial := c.State != "ok" || bytes.ContainsAny(c.Msg, "\r\n.\x00\xff") || len(c.Msg) > lim
-		run.Eval(nontrivial)
-		if f != nil {
-			c.Show = fmt.Sprintf("%q", c.Msg)
-			run.Violate("c05", c, f, func() *h.Finding { return evalC05(c) })
-			run.Outcome("finding:" + f.Sig)
-		} else {
-			run.Outcome("ok:" + c.State)
-		}
-		if i%1999 == 7 {
-			run.Sample("case", 8, map[string]interface{}{"mode": c.Mode, "state": c.State, "msg": fmt.Sprintf("%q", c.Msg), "chunks": c.Chunks, "seg": c.Seg})
-		}
+		judge(cases[i], i%1999 == 7)
 	})
 	return run.Finish()
 }
